@@ -27,6 +27,7 @@ import (
 	"github.com/B1NARY-GR0UP/originium/pkg/filter"
 	"github.com/B1NARY-GR0UP/originium/pkg/kway"
 	"github.com/B1NARY-GR0UP/originium/pkg/logger"
+	"github.com/B1NARY-GR0UP/originium/pkg/verifhook"
 	"github.com/B1NARY-GR0UP/originium/table"
 	"github.com/B1NARY-GR0UP/originium/types"
 	"github.com/B1NARY-GR0UP/originium/utils"
@@ -87,9 +88,11 @@ func (lm *levelManager) recover() int64 {
 		}
 		// incomplete sstable left by a crash
 		if !file.IsDir() && path.Ext(file.Name()) == _tmpSuffix {
+			verifhook.FS("remove", path.Join(lm.dir, file.Name()))
 			if err = os.Remove(path.Join(lm.dir, file.Name())); err != nil {
 				lm.logger.Panicf("failed to remove incomplete sstable %s: %v", file.Name(), err)
 			}
+			verifhook.FSDone("remove", path.Join(lm.dir, file.Name()))
 		}
 	}
 
@@ -182,6 +185,7 @@ func (lm *levelManager) recover() int64 {
 		}
 
 		lm.levels[level].PushBack(th)
+		verifhook.EventN("recover.table.L", level)
 	}
 
 	return maxVersion
@@ -391,6 +395,8 @@ func (lm *levelManager) compactL0() {
 		dataBlockList = append(dataBlockList, dataBlock.Entries)
 	}
 
+	verifInputs := verifhook.CloneLists(dataBlockList)
+
 	// merge sstables
 	mergedEntries := kway.MergeKeepTombstones(dataBlockList...)
 
@@ -428,16 +434,22 @@ func (lm *levelManager) compactL0() {
 
 	// delete old sstables from L0
 	for _, e := range l0Tables {
+		verifhook.FS("remove", lm.fileName(0, e.Value.(tableHandle).levelIdx))
 		if err := os.Remove(lm.fileName(0, e.Value.(tableHandle).levelIdx)); err != nil {
 			lm.logger.Panicf("failed to delete old sstable: %v", err)
 		}
+		verifhook.FSDone("remove", lm.fileName(0, e.Value.(tableHandle).levelIdx))
 	}
 	// delete old sstables from L1
 	for _, e := range l1Tables {
+		verifhook.FS("remove", lm.fileName(1, e.Value.(tableHandle).levelIdx))
 		if err := os.Remove(lm.fileName(1, e.Value.(tableHandle).levelIdx)); err != nil {
 			lm.logger.Panicf("failed to delete old sstable: %v", err)
 		}
+		verifhook.FSDone("remove", lm.fileName(1, e.Value.(tableHandle).levelIdx))
 	}
+	verifhook.EventN("compact.L", 0)
+	verifhook.Compaction(lm, 0, verifInputs, discarded)
 }
 
 // LN -> LN+1
@@ -466,6 +478,8 @@ func (lm *levelManager) compactLN(n int) {
 	// LN data block entries
 	dataBlockLN := lm.fetch(n, lnTable.Value.(tableHandle).levelIdx, lnTable.Value.(tableHandle).dataBlockIndex.DataBlock)
 	dataBlockList = append(dataBlockList, dataBlockLN.Entries)
+
+	verifInputs := verifhook.CloneLists(dataBlockList)
 
 	// merge sstables
 	mergedEntries := kway.MergeKeepTombstones(dataBlockList...)
@@ -501,20 +515,27 @@ func (lm *levelManager) compactLN(n int) {
 	}
 
 	// delete old sstables from LN
+	verifhook.FS("remove", lm.fileName(n, lnTable.Value.(tableHandle).levelIdx))
 	if err := os.Remove(lm.fileName(n, lnTable.Value.(tableHandle).levelIdx)); err != nil {
 		lm.logger.Panicf("failed to delete old sstable: %v", err)
 	}
+	verifhook.FSDone("remove", lm.fileName(n, lnTable.Value.(tableHandle).levelIdx))
 	// delete old sstables from LN+1
 	for _, e := range ln1Tables {
+		verifhook.FS("remove", lm.fileName(n+1, e.Value.(tableHandle).levelIdx))
 		if err := os.Remove(lm.fileName(n+1, e.Value.(tableHandle).levelIdx)); err != nil {
 			lm.logger.Panicf("failed to delete old sstable: %v", err)
 		}
+		verifhook.FSDone("remove", lm.fileName(n+1, e.Value.(tableHandle).levelIdx))
 	}
+	verifhook.EventN("compact.L", n)
+	verifhook.Compaction(lm, n, verifInputs, discarded)
 }
 
 // remove version <= discardAtOrBelow and keep latest version
 func (lm *levelManager) discardStaleEntries(entries []types.Entry) []types.Entry {
 	low := lm.db.oracle.discardAtOrBelow()
+	verifhook.NoteLow(lm, low)
 	if low == 0 {
 		return entries
 	}
@@ -585,28 +606,35 @@ func (lm *levelManager) overlapLN(level int, start, end string) []*list.Element 
 func (lm *levelManager) writeTable(name string, tableBytes []byte) error {
 	tmp := name + _tmpSuffix
 
+	verifhook.FS("create", tmp)
 	fd, err := os.OpenFile(tmp, os.O_CREATE|os.O_RDWR|os.O_TRUNC, 0600)
 	if err != nil {
 		return err
 	}
+	verifhook.FSDone("create", tmp)
 
 	// write sstable
+	verifhook.FS("write", tmp)
 	if _, err = fd.Write(tableBytes); err != nil {
 		_ = fd.Close()
 		return err
 	}
+	verifhook.FSDone("write", tmp)
 
 	// os sync
+	verifhook.FS("sync", tmp)
 	if err = fd.Sync(); err != nil {
 		lm.logger.Errorf("failed to sync file: %v", err)
 		_ = fd.Close()
 		return err
 	}
+	verifhook.FSDone("sync", tmp)
 
 	if err = fd.Close(); err != nil {
 		return err
 	}
 
+	verifhook.FS("rename", tmp+"\x00"+name)
 	return os.Rename(tmp, name)
 }
 
